@@ -2,7 +2,7 @@ CHECK = {
     "level": "exploration",
     "assumptions": [
         "AES-GCM itself (crypto/cipher) is sound; the check decides how the barrier uses it (header, AAD, length checks, both storage paths)",
-        "the physical layout term(4)|version(1)|nonce(12)|ciphertext|tag(16) is only used to label tamper positions, never in a verdict",
+        "the physical layout term(4)|version(1)|nonce(12)|ciphertext|tag(16) is used to label tamper positions and in one verdict only: two records written by different Put calls never share their first 17 bytes (a repeated term+nonce is a repeated keystream; with the documented random 96-bit nonces a collision has probability < 2^-64 per run)",
     ],
     "units": [
         unit("barrier-record", "barrier", ["barrier/c01_record_test.go"], "^TestVerif_C01_",
